@@ -48,6 +48,7 @@ func __lastsent[T any](ch chan T) (r T)                  { return }
 func __sentcount[T any](ch chan T) int                   { return 0 }
 func __assert(label string, f func() bool)               {}
 func __assumeat(label string, f func() bool)             {}
+func __ghostat(name string, f func() int)                {}
 func __progress(label string, f func() bool)             {}
 func __assumedensures(label string, f func() bool)       {}
 func __iterstart[T any](x T) T                           { return x }
@@ -406,13 +407,21 @@ func buildOverlay(pkgDir string) (*OverlayResult, error) {
 				if a.Assume {
 					marker = "__assumeat"
 				}
+				closure := "func() bool { return " + specToGo(a.Text, resultName) + " }"
+				label := a.Label
+				if a.Ghost != "" {
+					// the label slot carries the counter's name, the closure its new value
+					marker = "__ghostat"
+					label = a.Ghost
+					closure = "func() int { return int(" + specToGo(a.Text, resultName) + ") }"
+				}
 				if a.Each {
 					sts := stmtsContaining(fd.Body, src, off, a.After)
 					if len(sts) == 0 {
 						res.Problems = append(res.Problems, fmt.Sprintf("contract-target-missing: assert %s of %s: no statement contains %q", a.Label, c.Key, a.After))
 					}
 					for _, at := range sts {
-						ins = append(ins, insertion{off(at.Pos()), fmt.Sprintf(marker+"(%s, func() bool { return %s }); ", quoteLabel(a.Label), specToGo(a.Text, resultName))})
+						ins = append(ins, insertion{off(at.Pos()), fmt.Sprintf(marker+"(%s, %s); ", quoteLabel(label), closure)})
 					}
 					continue
 				}
@@ -422,10 +431,10 @@ func buildOverlay(pkgDir string) (*OverlayResult, error) {
 					continue
 				}
 				if a.Before {
-					ins = append(ins, insertion{off(at.Pos()), fmt.Sprintf(marker+"(%s, func() bool { return %s }); ", quoteLabel(a.Label), specToGo(a.Text, resultName))})
+					ins = append(ins, insertion{off(at.Pos()), fmt.Sprintf(marker+"(%s, %s); ", quoteLabel(label), closure)})
 					continue
 				}
-				ins = append(ins, insertion{off(at.End()), fmt.Sprintf("; "+marker+"(%s, func() bool { return %s });", quoteLabel(a.Label), specToGo(a.Text, resultName))})
+				ins = append(ins, insertion{off(at.End()), fmt.Sprintf("; "+marker+"(%s, %s);", quoteLabel(label), closure)})
 			}
 			loops := collectLoops(fd.Body)
 			res.Problems = append(res.Problems, resolveNamedLoops(c, loops, src, off)...)
